@@ -48,7 +48,7 @@ import (
 type c14File struct {
 	Name string `json:"name"` // cli: slash path below the tree root; api: the name passed to Apply
 	Src  string `json:"src"`
-	Role string `json:"role"` // how the generator built it; a label, not used by the oracle
+	Role string `json:"role"`           // how the generator built it; a label, not used by the oracle
 	Mode uint32 `json:"mode,omitempty"` // permission bits when not 0644 (C06, C12)
 }
 
